@@ -685,6 +685,18 @@ def run_copies(ctx):
     b.place_notes(arg, 4)
     b[0] = arg
     ctx.check("copies: a list passed to Bar.place_notes / bar[i] = is not modified", arg == names, {"list": names}, names, arg, mechanism="arg:Bar")
+    from mingus.containers.instrument import Instrument, Piano, MidiInstrument
+    for cls in (Instrument, Piano, MidiInstrument):
+        for given in (["C-3", "C-5"], ["E-2", "G-6"]):
+            arg = list(given)
+            st, r = ctx.call(cls().set_range, arg)
+            ctx.check("copies: a list passed to Instrument.set_range is not modified", st == "ok" and len(arg) == 2 and all(type(x) is str for x in arg) and list(map(str, arg)) == given,
+                      {"class": cls.__name__, "list": given}, given, [type(x).__name__ for x in arg] if st == "ok" else repr(r), mechanism="arg:set_range")
+            ins = cls()
+            ins.set_range(list(given))
+            ctx.check("copies: a list passed to Instrument.set_range is not modified", ins.note_in_range(given[0]) and ins.note_in_range(given[1])
+                      and not ins.note_in_range("C-9"), {"class": cls.__name__, "list": given, "what": "the range is in force"}, None, None,
+                      mechanism="arg:set_range-works")
     ctx.case(("arg-containers",))
     ctx.sample({"copy script": "NoteContainer(src); transpose/augment/set_velocity/add/remove on the copy; compare src"})
 
